@@ -281,7 +281,7 @@ class SimPool(object):
             self._handoff_final(t)
 
     def _runnable(self):
-        r = [t for t in self.tasks if t.started and not t.done]
+        r = [t for t in self.tasks if t.started and not t.done and (t.blocked_on is None or t.blocked_on.done)]
         m = self.main
         if m.blocked_on is None or m.blocked_on.done:
             r.append(m)
@@ -365,9 +365,9 @@ class SimPool(object):
         n.sem.release()
 
     def _block_until(self, task):
-        m = self.main
-        if self.cur is not m:
-            raise HarnessError("Future.result() called from a pool thread")
+        # the caller is whoever holds the baton: the main thread, or a pool task that submitted work of its own
+        # (collect() hands ONE pool to run_all and to the persister's marshalling)
+        m = self.cur
         m.blocked_on = task
         while not task.done:
             self.steps += 1
